@@ -254,7 +254,7 @@ theorem seqStep_hdr (n : Node) (op : SeqOp) (next : Nat) : (seqStep n op next).n
       split
       · rfl
       · split <;> exact imulLoop_hdr _ _ _ _ _
-    | sort k r => dsimp only; split <;> first | (split <;> rfl) | rfl
+    | sort k r => dsimp only; split <;> first | (split <;> first | rfl | (split <;> rfl)) | rfl
     | set r => dsimp only; split <;> exact setNode_hdr _ _ _ _
     | setDefault => dsimp only; split <;> exact setDefault_hdr _ _
     | len => rfl
